@@ -461,6 +461,21 @@ def pred(item, c):
         worst = max(e0, e1, e2, e3, e4, e5, e6)
         return worst <= PTOL * max(1.0, abs(phi)), (f'Jones vectors at phi = {phi!r}, polariser at {th!r}: construction {e0!r}, array vs scalar {e1!r}, '
                                                    f'norms / orthogonality {e2!r}, Malus {e3!r} (array {e4!r}), circular through polariser {e5!r}, QWP {e6!r}')
+    if item == 'stokes':
+        # M(J) S(E) = S(J E) for pure states; the closed Stokes cone is mapped into itself (partially polarised inputs too)
+        J = _l2m(c['J'])
+        E = np.array([complex(*c['E'][0]), complex(*c['E'][1])])
+
+        def S(v):
+            return np.array([abs(v[0]) ** 2 + abs(v[1]) ** 2, abs(v[0]) ** 2 - abs(v[1]) ** 2,
+                             2 * (np.conj(v[0]) * v[1]).real, (1j * (np.conj(v[0]) * v[1] - np.conj(v[1]) * v[0])).real])
+        Mm = P.jones_to_mueller(J, broadcast=c['broadcast'])
+        e1 = float(np.max(np.abs(Mm @ S(E) - S(J @ E)))) / max(1.0, float(S(E)[0]))
+        Sp = S(E) + np.array([c['unpolarised'], 0.0, 0.0, 0.0])
+        out = Mm @ Sp
+        slack = out[0] - math.sqrt(out[1] ** 2 + out[2] ** 2 + out[3] ** 2)
+        ok = e1 <= PTOL * 10 and slack >= -PTOL * 10 * max(1.0, abs(out[0])) and out[0] >= -PTOL
+        return ok, f'M(J) S(E) vs S(J E): {e1!r}; partially polarised input (+{c["unpolarised"]!r} unpolarised): s0 - |s| = {slack!r}'
     if item == 'apply_optic':
         rng = np.random.Generator(np.random.PCG64(c['seed']))
         shp = tuple(c['shape'])
@@ -688,6 +703,15 @@ def correspondence(ctx):
         except Exception as ex:
             ctx.disagree('circular_pol_vector', {'handedness': hand}, f'raised {type(ex).__name__}: {ex}', line)
 
+    # ------------------------------------------------ Mueller acts on Stokes vectors as Jones acts on fields; the Stokes cone is preserved
+    for i in range(ctx.scale(150, 6000) * widen):
+        Ev = np.round(rng.uniform(-1, 1, size=(2, 2)), 3)
+        if i % 5 == 0:
+            Ev[1] = 0.0            # x-polarised
+        _check(ctx, 'stokes', {'J': _cm(rng), 'E': Ev.tolist(), 'broadcast': bool(i % 2),
+                               'unpolarised': float(rng.choice([0.0, round(float(rng.uniform(0, 2)), 3)]))},
+               nontrivial=bool(np.any(Ev != 0)), tag='pure' if i % 2 else 'mixed')
+
     # add_jones_propagation installs exactly that adapter on the propagation module (restored afterwards)
     from prysm import propagation
     saved = {k: getattr(propagation, k) for k in _PROP_ARGS}
@@ -776,6 +800,8 @@ def _small_scope():
         for pupil in ('generic', 'near_symmetric', 'near_symmetric_abs', 'weak', 'weak_offdiag'):
             yield 'adapter', {'func': fn, 'shape': [8, 6], 'seed': 1, 'pupil': pupil}
     yield 'apply_optic', {'shape': [4, 3], 'seed': 1}
+    for bj in basis[:4]:
+        yield 'stokes', {'J': bj, 'E': [[0.6, 0.0], [0.0, 0.8]], 'broadcast': True, 'unpolarised': 0.5}
     for phi in (0.0, 0.7, 2.0):
         for th in (0.0, 0.4):
             yield 'pol_vectors', {'phi': phi, 'theta': th, 'grid': [0.0, 0.3, 1.1]}
